@@ -19,6 +19,15 @@ func init() {
 
 var vpZoneE8 = time.FixedZone("E8", 8*3600)
 
+// vpZoneDST: a zone with daylight saving. Natively the real America/New_York;
+// in the engine (no zone database, time is environment) an opaque fourth zone.
+var vpZoneDST = func() *time.Location {
+	if l, err := time.LoadLocation("America/New_York"); err == nil {
+		return l
+	}
+	return time.FixedZone("America/New_York", -5*3600)
+}()
+
 func vpLocID(l *time.Location) int64 {
 	switch l {
 	case time.UTC, nil:
@@ -27,6 +36,8 @@ func vpLocID(l *time.Location) int64 {
 		return 1
 	case vpZoneE8:
 		return 2
+	case vpZoneDST:
+		return 5
 	}
 	if l.String() == "Asia/Shanghai" {
 		return 3
@@ -40,6 +51,8 @@ func vpLocOf(id int64) *time.Location {
 		return time.UTC
 	case 1:
 		return time.Local
+	case 3:
+		return vpZoneDST
 	}
 	return vpZoneE8
 }
@@ -172,8 +185,8 @@ func VP_C19_date() {
 	// addDate: shift triples from an arbitrary instant in either zone
 	sec := vpInt64("sec")
 	vpAssume(sec > -60000000000 && sec < 250000000000)
-	base := time.Unix(sec, 0).In(vpLocOf(int64(vpChoice("loc", 3))))
-	dy, dm, dd := vpRangeInt("dy", -100, 100), vpRangeInt("dm", -50, 50), vpRangeInt("dd", -800, 800)
+	base := time.Unix(sec, 0).In(vpLocOf(int64(vpChoice("loc", 4))))
+	dy, dm, dd := vpRangeInt("dy", -100, 100), vpRangeInt("dm", -50, 50), vpRangeInt("dd", -300000, 300000)
 	got2, err2 := addDate(base, dy, dm, dd)
 	want2 := base.AddDate(dy, dm, dd)
 	vpAssert("C19/addDate/shifts-civil-fields-with-carry", err2 == nil && got2.Equal(want2) && vpLocID(got2.Location()) == vpLocID(base.Location()))
@@ -187,7 +200,7 @@ func VP_C19_fields() {
 	vpAssume(sec > -60000000000 && sec < 250000000000)
 	ns := vpInt64("ns")
 	vpAssume(ns >= 0 && ns < 1000000000)
-	t := time.Unix(sec, ns).In(vpLocOf(int64(vpChoice("loc", 3))))
+	t := time.Unix(sec, ns).In(vpLocOf(int64(vpChoice("loc", 4))))
 	intFn := func(name string) (int, bool) {
 		f, ok := vpBuiltin(name).(func(time.Time) (int, error))
 		if !ok {
@@ -271,7 +284,7 @@ func VP_C19_zone() {
 	env := vpTimeEnv()
 	sec := vpInt64("sec")
 	vpAssume(sec > -60000000000 && sec < 250000000000)
-	t := time.Unix(sec, 0).In(vpLocOf(int64(vpChoice("loc", 3))))
+	t := time.Unix(sec, 0).In(vpLocOf(int64(vpChoice("loc", 4))))
 	switch vpChoice("fn", 4) {
 	case 0:
 		use, ok := vpBuiltin("useTimezone").(func(time.Time, string) (time.Time, error))
